@@ -505,6 +505,8 @@ func sweepC06(tier string, shard, shards int, emit func(C06Case)) {
 	rep := strings.Repeat
 	big := []string{
 		"", " ", "\n", "; c", ";;;; optimize:true", "()", "(", ")", "[", "]", ",", `"`, "!", "! !", "1 +", "+", "x + [", "(1 +) 2",
+		// a prefix `!` glued to every kind of character, at the end of the text and before a blank / a delimiter
+		`!"`, `a && !"`, `!" `, `!")`, `(!")`, `!"a`, `!"a"`, `!""`, `!(`, `!)`, `![`, `!]`, `!,`, `!;`, `!; c`, `!!`, `!!"`, `! "`, `a !"b" c`, `!'`, "!\n", "!\t\"", `!=`, `!=!`, `!"!"`, `"!`, `x = !"`, `f(!")`, `[!"]`, `!5`, `!-1`, `!+`,
 		rep("(", 65536), rep(")", 65536), rep("[", 65536), rep("(", 30000) + rep(")", 30000),
 		`"` + rep("x", 65536), `"` + rep("x", 65536) + `"`, "(+ 1 " + rep("9", 65536) + ")", "; " + rep("c", 65536), "(" + rep("a", 65536) + ")",
 		rep("(and true ", 200) + "true" + rep(")", 200),
